@@ -876,8 +876,11 @@ func runCheck(prop, tier string, budgetMs, nWorkers int) int {
 		fmt.Fprintf(os.Stderr, "vcheck: %d harness errors, first: %s\n", len(a.harnessErr), firstLines(a.harnessErr[0].V.Detail, 30))
 		exit = 2
 	}
+	if f := os.Getenv("VCHECK_SHOW_REJECTED"); a.rejected > 0 && strings.HasPrefix(f, "/") {
+		os.WriteFile(f, []byte(a.firstRejected), 0o644)
+	}
 	if a.rejected > 0 && os.Getenv("VCHECK_SHOW_REJECTED") != "" {
-		fmt.Fprintf(os.Stderr, "vcheck: note: %d generated workloads were rejected by the type checker, first: %s\n", a.rejected, firstLines(a.firstRejected, 80))
+		fmt.Fprintf(os.Stderr, "vcheck: note: %d generated workloads were rejected by the type checker, first: %s\n", a.rejected, firstLines(a.firstRejected, 12))
 	}
 	if a.rejected*4 > a.runs && exit == 0 {
 		fmt.Fprintf(os.Stderr, "vcheck: %d of %d generated workloads were rejected by the type checker, first: %s\n", a.rejected, a.runs, firstLines(a.firstRejected, 20))
